@@ -233,10 +233,11 @@ class Elf(BinFormat):
             size = S.p_filesz + ELF_PAGEOFFSET(S.p_vaddr)
             off  = S.p_offset - ELF_PAGEOFFSET(S.p_vaddr)
             addr = ELF_PAGESTART(S.p_vaddr)
-            size = ELF_PAGEALIGN(size)
+            # the file-backed part is followed by zeros up to the (page aligned) memory size:
+            msize = ELF_PAGEALIGN(max(S.p_memsz, S.p_filesz) + ELF_PAGEOFFSET(S.p_vaddr))
             self.__file.seek(off)
             base = addr
-            bytes_ = self.__file.read(size)
+            bytes_ = self.__file.read(size).ljust(msize, b"\x00")
             return {base: bytes_}
         else:
             logger.error("segment not a PT_LOAD [%08x/%0d]" % (S.p_vaddr, S.p_align))
